@@ -22,6 +22,6 @@ NoZ == <<1000, 0>>
 Init == m \in Modes /\ p \in Points(m) /\ z = NoZ
 Next == z = NoZ /\ z' \in Pick /\ UNCHANGED <<m, p>>
 Refines == z = NoZ \/ ToZoneClause(m, p, z[1], z[2], Rezone(m, p, z[1], z[2])) = "ok"
-Coverage == Cardinality(Legal) = 12058
+Coverage == Cardinality(Legal) = 11999
 ASSUME Coverage
 =============================================================================
